@@ -54,6 +54,12 @@ CHECKS["C06"] = dict(level="exploration", technique="TLA+ Names operators (serde
 CHECKS["C04"] = dict(level="exploration", technique="TLA+ Names!ArgKey (heck lowerCamel / snake on snake_case identifiers, unraw) as oracle; TLC enumerates parameter-class lists and identifiers; real CLI; declared / omittable / delivered key sets trace-validated by TLC",
     text="Every sequence of up to 3 parameter classes (value, optional, injected, channel) under both supported parameter cases, with the injected parameter rotated through 11 accepted spellings and the channel through 3, and every snake_case identifier over {a,b,1,_} up to length 4 plus raw identifiers, is generated in both modes; TLC checks that the Params declaration and the object reaching invoke carry exactly the keys Tauri deserialises, omittable iff Option.",
     note="Tauri's macro is not available offline; its key derivation (heck) is transcribed in Names.tla. Bare `Window` without generics is not in the spelling list. Known finding C04-ipc-channel-dropped.", ref="6 (C04)")
+CHECKS["C12"] = dict(level="exploration", technique="TLA+ Project!EventNames / OptionalNames and the Listeners judge; TLC enumerates emit placements x receivers x methods and event names over Tauri's alphabet; real CLI; parsed listeners trace-validated by TLC; payload types judged by TypeLang",
+    text="All 512 TLC-enumerated emit cases (16 placements x 8 receivers x emit/emit_to x literal/non-literal) and all 399 event names over [aB1-/:_] up to length 3, repeated emissions, a project without events and 18 payload forms are generated in both modes; TLC checks one listener per distinct required name, subscribed to exactly that name, legal and unique function identifiers, events.ts presence / re-export, and the payload type (translation of the Rust type where evident, unknown otherwise).",
+    note="Closure bodies and nested fns are optional placements. Known finding C12-untyped-variable-payload (pinned by a unit test).", ref="6 (C12)")
+CHECKS["C11"] = dict(level="exploration", technique="TLA+ Attrs!Expected / C11_Holds as oracle; TLC enumerates validator shapes, numeric literal classes and messages over character classes; real CLI in Zod mode; parsed schema chains trace-validated by TLC",
+    text="476 validator shapes x applicable field type classes, 63 numeric bound pairs and every message over 17 character classes up to length 3 (5219; quick: length <=2 + 500 sampled) are generated in Zod mode; the method chain of each field schema is parsed (bounds as exact numbers under IEEE-double semantics, messages decoded from the JS literal) and TLC checks that the constraint calls are exactly the declared ones and that sibling fields carry none.",
+    note="Known finding C11-email-url-shared-message. Zod's run-time behaviour is not executed (zod is not available offline); the chain is compared syntactically.", ref="6 (C11)")
 NOT_YET = {}
 def main():
     props = [json.loads(l) for l in open(os.path.join(VERIF, "properties.jsonl"))]
